@@ -1258,10 +1258,14 @@ def fam_ilu_reuse(g, prop, count, types):
             dens = r.uniform(0.15, 0.5)
             P = {(a, a) for a in range(n)} | {(a, b) for a in range(n) for b in range(n) if r.random() < dens}
 
+            # badly scaled rows / columns in half of the scenarios and the MC64 row permutation in half: equed comes back R / C / B and is
+            # an input of the later calls with supplied factors
+            rsc = [2.0 ** (r.randint(-12, 12) if r.random() < 0.5 else 0) for _ in range(n)] if r.random() < 0.5 else [1.0] * n
+
             def vals():
-                return {kk: ((8.0 if kk[0] == kk[1] else 2.0 ** -r.choice([0, 1, 2, 4, 6, 8])) * r.choice([1, -1]), 0.0) for kk in P}
+                return {kk: (rsc[kk[0]] * (8.0 if kk[0] == kk[1] else 2.0 ** -r.choice([0, 1, 2, 4, 6, 8])) * r.choice([1, -1]), 0.0) for kk in P}
             A = vals()
-            o = {"iludefault": 0, "ColPerm": r.choice([NATURAL, COLAMD]), "RowPerm": 0, "Equil": r.choice([0, 1]), "DropTol": float(r.choice([2.0 ** -5, 2.0 ** -3, 0.25])),
+            o = {"iludefault": 0, "ColPerm": r.choice([NATURAL, COLAMD]), "RowPerm": r.choice([0, 1]), "Equil": r.choice([0, 1, 1]), "DropTol": float(r.choice([2.0 ** -5, 2.0 ** -3, 0.25])),
                  "DropRule": r.choice([DROP_BASIC, DROP_BASIC | DROP_AREA, DROP_BASIC | DROP_PROWS, DROP_BASIC | DROP_AREA | DROP_INTERP]), "MILU": r.choice([0, 0, 1, 2]),
                  "Trans": r.choice([0, 1]), "PivotGrowth": 0, "Cond": 0, "u": float(r.choice([1.0, 0.125]))}
             B = g.rhs_for(A, n, 1, cplx)
